@@ -117,7 +117,7 @@ def multi_gen(rng, tier, *, weights, flags_p=0.5, engines=None, max_ops=None, **
     return {"config": swarm_config(rng), "ops": g.build()}
 
 
-MULTI_W = {**UNARY_W, "xfer": 4, "mat": 1.2, "chain": 1, "join": 1.2, "leaf": 1}
+MULTI_W = {**UNARY_W, "xfer": 4, "mat": 1.2, "chain": 1, "join": 1.2, "leaf": 1, "chain_empty": 0.3}
 
 
 class C03(Profile):
@@ -145,7 +145,7 @@ class C03(Profile):
             # the same call without the options does not show the same discrepancy
             if entry is None or not self._flagged(entry):
                 return None
-            if self._plain_variant_same(run, entry):
+            if self._plain_variant_same(run, entry, executed=(kind == "rows_mismatch")):
                 return None
         return self.claims.get(kind)
 
@@ -168,8 +168,10 @@ class C03(Profile):
         return False
 
     @staticmethod
-    def _plain_variant_same(run, entry):
-        """Does root application (no preferred-engine options) mean the same as what was built?"""
+    def _plain_variant_same(run, entry, executed=False):
+        """Does root application (no preferred-engine options) show the same discrepancy as what was built?
+        For tree-level kinds the two trees are compared by meaning (tree interpreter); for executed rows the
+        plain variant is executed too and compared with the model."""
         from .interp import InterpError, interp
 
         op = {k: v for k, v in entry.op.items() if k not in ("pe", "bt", "tr", "rq")}
@@ -179,6 +181,16 @@ class C03(Profile):
             plain = run.build_call(op, entry.parents)()
         except Exception:
             return False
+        if executed:
+            from . import model as M
+            from .execu import Entry
+
+            try:
+                rows, _ = run.evaluate(Entry(plain, entry.mv, op, entry.parents))
+            except Exception:
+                return True          # root application cannot even be executed: not a backtracking problem
+            _, problem = M.compare(entry.mv, rows)
+            return problem is not None
 
         def meaning(rel):
             try:
@@ -190,7 +202,7 @@ class C03(Profile):
         return meaning(plain) == meaning(entry.rel)
 
     def gen(self, rng, tier):
-        return multi_gen(rng, tier, weights=MULTI_W, flags_p=0.6, udf_p=0.04)
+        return multi_gen(rng, tier, weights={**MULTI_W, "process": 1.5}, flags_p=0.6, udf_p=0.04)
 
     def dn_keys(self, run):
         from .world import shape
@@ -284,7 +296,7 @@ class C06(Profile):
         big = tier == "thorough"
         mode = rng.choice(["sql", "it", "multi"])
         engines = {"sql": ["sql"], "it": ["it"], "multi": ["sql", "it"]}[mode]
-        w = {**UNARY_W, "chain": 2.5, "join": 2.5 if mode != "it" else 0, "leaf": 2, "mat": 0.5}
+        w = {**UNARY_W, "chain": 2.5, "chain_empty": 1, "join": 2.5 if mode != "it" else 0, "leaf": 2, "mat": 0.5}
         if mode == "multi":
             w["xfer"] = 2
         g = Gen(rng, engines=engines, weights=w, max_ops=13 if big else 9, nleaves=(2, 3),
@@ -328,7 +340,7 @@ class C07(Profile):
         return self.claims.get(kind)
 
     def gen(self, rng, tier):
-        w = {**UNARY_W, "xfer": 5, "mat": 3, "chain": 1.5, "join": 0.6, "leaf": 1.5, "process": 5, "run": 1}
+        w = {**UNARY_W, "xfer": 5, "mat": 3, "chain": 1.5, "chain_empty": 1.2, "join": 0.6, "leaf": 1.5, "process": 5, "run": 1}
         return multi_gen(rng, tier, weights=w, flags_p=0.15, special_leaf_p=0.12,
                          bounds=("exact", "loose", "zeromin", "unbounded"))
 
@@ -418,7 +430,7 @@ class C10(Profile):
 
     def gen(self, rng, tier):
         w = {"calc": 2, "proj": 2, "sel": 2, "dedup": 1, "sort": 1.5, "slice": 1.5, "xfer": 3, "mat": 5, "chain": 2,
-             "leaf": 1, "process": 5, "run": 4, "attach": 4, "iterate": 2, "cursor_open": 0.5, "pull": 1}
+             "chain_empty": 1.2, "leaf": 1, "process": 5, "run": 4, "attach": 4, "iterate": 2, "cursor_open": 0.5, "pull": 1}
         return multi_gen(rng, tier, weights=w, flags_p=0.1, engines=rng.choice([["it"], ["sql", "it"], ["sql", "it", "it2"]]),
                          max_ops=18 if tier == "thorough" else 12)
 
@@ -542,8 +554,8 @@ class C16(Profile):
         big = tier == "thorough"
         mode = rng.choice(["sql", "it", "multi"])
         engines = {"sql": ["sql"], "it": ["it"], "multi": ["sql", "it"]}[mode]
-        w = {"calc": 1, "proj": 1.5, "sel": 4, "dedup": 1, "sort": 1, "slice": 3, "chain": 3, "join": 3 if mode != "it" else 0,
-             "leaf": 2, "diag": 6}
+        w = {"calc": 1, "proj": 1.5, "sel": 4, "dedup": 1, "sort": 1, "slice": 3, "chain": 3, "chain_empty": 1.5,
+             "join": 3 if mode != "it" else 0, "leaf": 2, "diag": 6}
         if mode == "multi":
             w["xfer"] = 2
             w["mat"] = 0.7
